@@ -34,14 +34,15 @@ def resolveKind (m : Module) (t : Trace) : String :=
         if t.indices.isEmpty || (t.indices.length == 1 && t.indices.head! == f.cards.length) then "epilogue" else "other"
       | none => "other"
 
-def sweepLoop (m : Module) (p : Prog) (cfg : Config) : Nat → Nat → Nat → Nat → Nat → String → Nat × Nat × Nat × String
-  | 0, _, errs, epi, other, first => (errs, epi, other, first)
-  | k+1, b, errs, epi, other, first =>
+def sweepLoop (m : Module) (p : Prog) (cfg : Config) : Nat → Nat → Nat → Nat → Nat → String → List String → Nat × Nat × Nat × String × List String
+  | 0, _, errs, epi, other, first, trs => (errs, epi, other, first, trs)
+  | k+1, b, errs, epi, other, first, trs =>
     let (_, e) := run p b (VmState.fresh cfg)
     match e with
-    | none => sweepLoop m p cfg k (b + 1) errs epi other first
+    | none => sweepLoop m p cfg k (b + 1) errs epi other first trs
     | some e =>
       let tr := errTrace p e
+      let trs := trs ++ [toString b ++ ":" ++ e.kind.name ++ ":" ++ ";".intercalate (tr.map showTrace)]
       let kinds := tr.map (resolveKind m)
       let epi' := epi + (kinds.filter (· == "epilogue")).length
       let other' := other + (kinds.filter (· == "other")).length
@@ -50,7 +51,7 @@ def sweepLoop (m : Module) (p : Prog) (cfg : Config) : Nat → Nat → Nat → N
           | some ((t, _), i) => " first=budget:" ++ toString b ++ ",entry:" ++ toString i ++ "," ++ e.kind.name ++ ":" ++ showTrace t
           | none => ""
         else first
-      sweepLoop m p cfg k (b + 1) (errs + 1) epi' other' first'
+      sweepLoop m p cfg k (b + 1) (errs + 1) epi' other' first' trs
 
 def trcStep (st : VmEngState) (args : List String) : String :=
   match args with
@@ -75,9 +76,10 @@ def trcStep (st : VmEngState) (args : List String) : String :=
       | .error e => "compile-" ++ showCErr e
       | .ok prog =>
         let p := Prog.ofProgram prog
-        let cfg : Config := { memLimit := 409600, stackSize := kv rest "stack" 256, callStackSize := 64 }
-        let (errs, epi, other, first) := sweepLoop m p cfg (kv rest "upto" 50) 1 0 0 0 ""
-        "sweep errors=" ++ toString errs ++ " unresolved_epilogue=" ++ toString epi ++ " unresolved_other=" ++ toString other ++ first
+        let cfg : Config := { memLimit := kv rest "mem" 409600, stackSize := kv rest "stack" 256, callStackSize := 64 }
+        let (errs, epi, other, first, trs) := sweepLoop m p cfg (kv rest "upto" 50) 1 0 0 0 "" []
+        "sweep errors=" ++ toString errs ++ " unresolved_epilogue=" ++ toString epi ++ " unresolved_other=" ++ toString other ++ first ++
+          " traces=[" ++ ",".intercalate trs ++ "]"
   | "compile" :: m :: _ =>
     match Module.ofTok? m with
     | none => "bad-op"
